@@ -903,6 +903,7 @@ static void do_sp(CMR* cmr)
 /* ---------- C17: balanced ---------- */
 
 /* case: algorithm seriesParallel wantSub M   record: same + rc verdict(0/1/2) hasSub [sub] */
+static __thread bool balanced_echo_rest = false;
 static void do_balanced(CMR* cmr)
 {
   long long alg = nx(), sp = nx(), ws = nx();
@@ -924,10 +925,19 @@ static void do_balanced(CMR* cmr)
   oi(rc);
   oi(flag);
   o_opt_submat(rc ? NULL : sub);
+  if (balanced_echo_rest)
+    o_rest();       /* api balanced_cert: the generator's witness (a digraph certificate or none) is echoed for the judge */
   rec_end();
   if (sub)
     CMRsubmatFree(cmr, &sub);
   CMRchrmatFree(cmr, &M);
+}
+
+static void do_balanced_cert(CMR* cmr)
+{
+  balanced_echo_rest = true;
+  do_balanced(cmr);
+  balanced_echo_rest = false;
 }
 
 /* ---------- C05 / C06 / C14: graphs ---------- */
@@ -2313,6 +2323,7 @@ done:
 
 /* case: variant(0 equimodular, 1 strongly equimodular, 2 unimodular, 3 strongly unimodular) kin M
  * record: variant kin M rc verdict(0/1, 2 = not written) kout */
+static __thread bool equimod_echo_rest = false;
 static void do_equimod(CMR* cmr)
 {
   long long variant = nx(), kin = nx();
@@ -2336,8 +2347,17 @@ static void do_equimod(CMR* cmr)
   oi(rc);
   oi(flag);
   oi(variant < 2 ? k : 0);
+  if (equimod_echo_rest)
+    o_rest();       /* api equi_cert: the generator's factorisation certificate is echoed for the judge */
   rec_end();
   CMRintmatFree(cmr, &M);
+}
+
+static void do_equi_cert(CMR* cmr)
+{
+  equimod_echo_rest = true;
+  do_equimod(cmr);
+  equimod_echo_rest = false;
 }
 
 /* ---------- dispatch ---------- */
@@ -2400,12 +2420,14 @@ static struct
   {"reprt", do_reprt},            /* 22 */
   {"tu_net", do_tu_net},          /* 23 */
   {"regular_cert", do_regular_cert}, /* 24 */
+  {"equi_cert", do_equi_cert},    /* 25 */
+  {"balanced_cert", do_balanced_cert}, /* 26 */
   {"tlimit", do_tlimit},
   {"hist", do_hist},
   {"threads", do_threads},
   {NULL, NULL}
 };
-#define NUM_SUB_APIS 25
+#define NUM_SUB_APIS 27
 
 /* ---------- running a handler with its record captured in memory ---------- */
 
